@@ -172,9 +172,9 @@ pub fn run(out_prefix: &str, shards: usize, seed: u64, scale: usize, mks: &[&'st
     }
     // seeded: random lists and every prefilter variant under every match kind, long haystacks
     let reprs = ["nc", "c", "dfa", "top-auto", "top-nc", "top-c", "top-dfa"];
-    for i in 0..(18 * mks.len() * scale) {
+    for i in 0..(20 * mks.len() * scale) {
         let pats = if i % 2 == 0 { gen::random_pats(&mut rg, 6, 6) } else { prefilter_lists(&mut rg, i / 2) };
-        let mk = mks[(i / 2 / 9) % mks.len()];
+        let mk = mks[(i / 2 / 10) % mks.len()];
         let mut c = Ctx::new(&pats, mk, reprs[i % reprs.len()]);
         c.ci = rg.gen_range(0..4) == 0;
         c.pre = i % 2 == 1 || rg.gen_bool(0.6);
